@@ -147,6 +147,21 @@ theorem stepInstr_safe (s : St) (i : Instr) (h : VOK s.vm) : StepSafe (stepInstr
       rw [hv]
       exact hm
     · exact (h.withDp _).mid
+  · -- PUSH_GLYPH_ATTR
+    split
+    · rename_i sl hsl
+      obtain ⟨v', hv, hm⟩ := push_ok { s.vm with dp := s.vm.dp + 3 } (glyphAttr (slotat s.ctx (s8 (ps.getD 2 0))).2
+        ((slotat s.ctx (s8 (ps.getD 2 0))).2.seg.get sl).gid ((ps.getD 0 0) * 256 + ps.getD 1 0)) (h.withDp _)
+      rw [hv]
+      exact hm
+    · exact (h.withDp _).mid
+  · -- PUSH_SLOT_ATTR
+    split
+    · rename_i sl hsl
+      obtain ⟨v', hv, hm⟩ := push_ok { s.vm with dp := s.vm.dp + 2 } (slotAttr ((slotat s.ctx (s8 (ps.getD 1 0))).2.seg.get sl) (ps.getD 0 0)) (h.withDp _)
+      rw [hv]
+      exact hm
+    · exact (h.withDp _).mid
   · -- ATTR_SET
     obtain ⟨x, v', hv, hm⟩ := pop_ok s.vm h
     rw [hv]
@@ -164,6 +179,16 @@ theorem stepInstr_safe (s : St) (i : Instr) (h : VOK s.vm) : StepSafe (stepInstr
     have hn := attrSet_noStack s.ctx (ps.getD 0 0) 0 (i16 (i32 (x + curAttr s.ctx (ps.getD 0 0))))
     revert hn
     cases opAttrSet s.ctx (ps.getD 0 0) 0 (i16 (i32 (x + curAttr s.ctx (ps.getD 0 0)))) with
+    | cont c => intro _; exact hm.withDp _
+    | died c => intro _; exact hm.1
+    | fault w => intro hn; exact hn
+  · -- ATTR_SUB
+    obtain ⟨x, v', hv, hm⟩ := pop_ok s.vm h
+    rw [hv]
+    simp only []
+    have hn := attrSet_noStack s.ctx (ps.getD 0 0) 0 (i16 (i32 (curAttr s.ctx (ps.getD 0 0) - x)))
+    revert hn
+    cases opAttrSet s.ctx (ps.getD 0 0) 0 (i16 (i32 (curAttr s.ctx (ps.getD 0 0) - x))) with
     | cont c => intro _; exact hm.withDp _
     | died c => intro _; exact hm.1
     | fault w => intro hn; exact hn
